@@ -33,6 +33,11 @@ def check(model, tier):
     processor_rules.r07_8_materialize_as(ctx, rule="R10.6")
     structure.r_marker_reapply(ctx, "R10.7")
     structure.r_select_reapply(ctx, "R10.8")
+    from ..rules import dispatch as _dispatch
+
+    # every Materialization must reach the arm that caches (not a narrower pattern that lets some fall to a generic arm)
+    _dispatch.r08_1_totality(ctx, rule="R10.9", scope="iteration")
+    _dispatch.r08_1_totality(ctx, rule="R10.10", scope="generic")
     run.assume("CPython attribute semantics; code outside the package does not call object.__setattr__ on relations")
     run.assume("single-threaded histories (the property does not quantify over schedules)")
     from ..rules.foundation import run_foundation
